@@ -1,7 +1,7 @@
 #!/bin/bash
 # Confirms a finished sub-agent seed in its worktree, stores it under /verif/seeded/<id>-<suffix>, removes the worktree.
-# Usage: tools/take_seed.sh C20 [suffix]
-ID="$1"; SUF="${2:-a}"; WT=/tmp/wt-$ID; D=/verif/seeded/$ID-$SUF
+# Usage: tools/take_seed.sh C20 [suffix] [worktree]
+ID="$1"; SUF="${2:-a}"; WT="${3:-/tmp/wt-$ID}"; D=/verif/seeded/$ID-$SUF
 /verif/tools/confirm_seed.sh $WT | tail -1 > /tmp/confirm-$ID.txt
 cat /tmp/confirm-$ID.txt
 grep -q "demo_with_patch_exit=[1-9].* suite_with_patch_exit=0 reverse_apply_exit=0 demo_without_patch_exit=0" /tmp/confirm-$ID.txt || { echo "NOT CONFIRMED: $ID (worktree kept)"; exit 1; }
